@@ -43,7 +43,11 @@
  * order is a sound real-time order for the window arguments.
  *
  * Parameters: --p0 frames/decodes of thread A; --p1 1 = H2 yield hook off;
- *             --p2 stall seconds (default 40); --p3 1 = dump gdb stacks on stall.
+ *             --p2 stall seconds (default 40); --p3 1 = dump gdb stacks on stall;
+ *             --p4 bit 0 = without thread C, bit 1 = without thread D;
+ *             --p5 1 = (demonstration only, not part of the check) the handler fetches on every
+ *             event type, which self-deadlocks where the library sends an event with the
+ *             caption mutex held.
  */
 #include "vf.h"
 #include <pthread.h>
@@ -107,7 +111,7 @@ static void pace(struct vf_rng *r)
 
 #define ROWS 15
 #define COLS 34
-struct pgsum { uint64_t h; uint32_t row[ROWS]; };
+struct pgsum { uint64_t h; uint32_t row[ROWS]; uint32_t head, tail, misc; char txt[ROWS * COLS]; /* printable copy for witnesses */ };
 
 NOTSAN static uint64_t mix(uint64_t h, const void *p, size_t n)
 {
@@ -124,7 +128,8 @@ NOTSAN static uint64_t mix(uint64_t h, const void *p, size_t n)
 }
 
 /* digest of everything a fetch returns except the 'dirty' hints, which every
- * fetch (by anybody) consumes and resets */
+ * fetch (by anybody) consumes and resets, and except the unused text[] cells
+ * behind the rows x columns of the page */
 NOTSAN static void page_sum(const vbi_page *pg, struct pgsum *s)
 {
 	uint64_t h = 1469598103934665603ull;
@@ -134,10 +139,25 @@ NOTSAN static void page_sum(const vbi_page *pg, struct pgsum *s)
 		s->row[r] = (uint32_t)(rh ^ (rh >> 32));
 		h = (h ^ rh) * 0x100000001B3ull;
 	}
-	h = mix(h, pg, offsetof(vbi_page, text));
-	h = mix(h, &pg->text[ROWS * COLS], sizeof pg->text - sizeof(vbi_char) * ROWS * COLS);
-	h = mix(h, &pg->screen_color, sizeof *pg - offsetof(vbi_page, screen_color));
+	{
+		uint64_t a = mix(1, pg, offsetof(vbi_page, text));
+		uint64_t b = mix(2, &pg->text[ROWS * COLS], sizeof pg->text - sizeof(vbi_char) * ROWS * COLS);
+		uint64_t c = mix(3, &pg->screen_color, sizeof *pg - offsetof(vbi_page, screen_color));
+		s->head = (uint32_t)(a ^ (a >> 32)); s->tail = (uint32_t)(b ^ (b >> 32)); s->misc = (uint32_t)(c ^ (c >> 32));
+		/* the tail (text[] cells behind rows x columns) is not page content: the
+		 * roll-up code scribbles one cell past row 14 and a reset does not
+		 * clear it; it is recorded for witnesses but not compared */
+		h = (h ^ a) * 0x100000001B3ull;
+		h = (h ^ c) * 0x100000001B3ull;
+	}
 	s->h = h;
+	{
+		int i;
+		for (i = 0; i < ROWS * COLS; i++) {
+			unsigned u = pg->text[i].unicode;
+			s->txt[i] = (char)(u < 0x20 || u > 0x7e ? '?' : (u == 0x20 && pg->text[i].opacity == VBI_TRANSPARENT_SPACE) ? '_' : u);
+		}
+	}
 }
 
 /* =====================================================================
@@ -158,10 +178,11 @@ static struct {
 	struct snap *snaps; long n_snaps, cap_snaps;
 	struct pgchg *chg[8]; long n_chg[8], cap_chg[8];
 	struct span *dec; long n_dec;              /* vbi_decode call windows */
+	struct { uint8_t f, b[2]; } *capt;          /* caption line fed in frame f (field 1/2, 0 none) */
 	struct span *hand; long n_hand, cap_hand;   /* handler windows */
 	vbi_page pg_a;                              /* A's fetch buffer */
 	long a_frame_now;
-	long caption_events, other_events, ttx_events, handler_fetch_fail;
+	long caption_events, other_events, ttx_events, trigger_events, handler_fetch_fail;
 	struct pgsum blank[8];
 	/* fetchers */
 	struct vf_rng rng_f[2];
@@ -201,15 +222,17 @@ static void a_snapshot(int in_handler)
 static void a_handler(vbi_event *ev, void *ud)
 {
 	(void)ud;
-	if (ev->type == VBI_EVENT_CAPTION) {
+	if (ev->type == VBI_EVENT_CAPTION || vf_param[5]) {
 		unsigned long c = tick();
-		A.caption_events++;
+		if (ev->type == VBI_EVENT_CAPTION) A.caption_events++; else A.other_events++;
 		__atomic_store_n(&g_phase[0], "vbi_fetch_cc_page(handler)", __ATOMIC_RELAXED);
 		a_snapshot(1);
 		__atomic_store_n(&g_phase[0], "vbi_decode", __ATOMIC_RELAXED);
 		if (A.n_hand < A.cap_hand) { A.hand[A.n_hand].c = c; A.hand[A.n_hand].r = tick(); A.n_hand++; }
 	} else if (ev->type == VBI_EVENT_TTX_PAGE) {
 		A.ttx_events++;
+	} else if (ev->type == VBI_EVENT_TRIGGER) {
+		A.trigger_events++;
 	} else {
 		/* NETWORK, NETWORK_ID, ASPECT, PROG_INFO: no fetch here - the
 		 * library sends some of these with the caption mutex held */
@@ -342,6 +365,16 @@ static void gen_action(struct vf_rng *r)
 		if (ff[field].wr > ff[field].rd) ff[field].b[ff[field].wr - 1][vf_below(r, 2)] ^= 0x80;
 		ff_put(&ff[field], (int)vf_below(r, 0x80), (int)vf_below(r, 0x80));
 		break;
+	case 15:
+		if (vf_chance(r, 1, 2)) {                 /* ITV trigger on T2 (field 1, channel 2 text): TRIGGER event */
+			char buf[80];
+			int i, n = snprintf(buf, sizeof buf, "<http://verif.example/%u>[n:t%u]", vf_below(r, 5), g_word++ % 100);
+			ff_misc(0, 1, 10, r);             /* text restart, channel 2 */
+			for (i = 0; i < n; i += 2) ff_put(&ff[0], buf[i], i + 1 < n ? buf[i + 1] : 0);
+			ff_misc(0, 1, 13, r);             /* carriage return ends the trigger string */
+			break;
+		}
+		/* fall through */
 	default:                                      /* silence */
 		ff_put(&ff[field], 0, 0);
 		if (vf_chance(r, 1, 2)) ff_put(&ff[field], 0, 0);
@@ -425,6 +458,7 @@ static void *a_decoder_thread(void *arg)
 			s->line = field ? 284 : 21;
 			s->data[0] = ff[field].b[ff[field].rd][0];
 			s->data[1] = ff[field].b[ff[field].rd][1];
+			A.capt[f].f = (uint8_t)(field + 1); A.capt[f].b[0] = s->data[0]; A.capt[f].b[1] = s->data[1];
 			ff[field].rd++;
 			if (n > 1 && vf_chance(r, 1, 2)) { vbi_sliced tmp = sl[0]; sl[0] = sl[n - 1]; sl[n - 1] = tmp; }
 		}
@@ -503,7 +537,7 @@ static void dump_gdb(void)
 }
 
 /* returns 0 when all threads finished, exits 98 on stall */
-static void join_with_watchdog(pthread_t *th, int n, const char *scenario)
+static void join_with_watchdog(pthread_t *th, int nth, int n, const char *scenario)
 {
 	long last[NTHREADS] = {0}, stall_s = vf_param[2] > 0 ? vf_param[2] : 40;
 	struct timespec t_last, now;
@@ -535,7 +569,7 @@ static void join_with_watchdog(pthread_t *th, int n, const char *scenario)
 		}
 		usleep(5000);
 	}
-	for (i = 0; i < n; i++) pthread_join(th[i], NULL);
+	for (i = 0; i < nth; i++) pthread_join(th[i], NULL);
 }
 
 /* ---- post-run analysis (main thread, after join) ---- */
@@ -553,13 +587,31 @@ static const struct pgsum *state_at(int p, long snap)
 
 static const char *row_diff(const struct pgsum *a, const struct pgsum *b)
 {
-	static char buf[2][64];
+	static char buf[4][64];
 	static int k;
-	char *o = buf[k ^= 1];
+	char *o = buf[k = (k + 1) & 3];
 	int r;
 	for (r = 0; r < ROWS; r++) o[r] = a->row[r] == b->row[r] ? '=' : 'x';
-	o[ROWS] = 0;
+	o[ROWS] = '/';
+	o[ROWS + 1] = a->head == b->head ? '=' : 'H';      /* fields before text[] */
+	o[ROWS + 2] = a->tail == b->tail ? '=' : 'T';      /* text[] behind the 15 rows */
+	o[ROWS + 3] = a->misc == b->misc ? '=' : 'M';      /* screen colour/opacity, colour map ... */
+	o[ROWS + 4] = 0;
 	return o;
+}
+
+/* the rows of s that differ from ref, as text, into buf */
+static const char *rows_text(const struct pgsum *s, const struct pgsum *ref)
+{
+	static char buf[4][400];
+	static int k;
+	char *b = buf[k = (k + 1) & 3];
+	int r, o = 0;
+	b[0] = 0;
+	for (r = 0; r < ROWS && o < 300; r++)
+		if (s->row[r] != ref->row[r])
+			o += snprintf(b + o, 400 - (size_t)o, "[%d]'%.*s' ", r, COLS, s->txt + r * COLS);
+	return b;
 }
 
 static int where_is(unsigned long t, const struct span *v, long n)
@@ -583,7 +635,7 @@ static int analyse_a(void)
 		for (i = 0; i < A.n_fr[me]; i++) {
 			struct fetch_rec *fr = &A.fr[me][i];
 			long lo, hi, jlo, jhi, j;
-			int p = fr->pgno - 1, ok = 0, ncand = 0, in_dec, in_hand;
+			int p = fr->pgno - 1, ok = 0, ncand = 0, match = 0, in_dec, in_hand;
 			const struct pgsum *first = NULL, *last = NULL;
 			if (fr->pgno < 1 || fr->pgno > 8) {
 				if (fr->ret)
@@ -605,8 +657,9 @@ static int analyse_a(void)
 				if (!first) first = s;
 				last = s;
 				ncand++;
-				if (s->h == fr->s.h) { ok = 1; if (s == first) got_old++; else got_new++; break; }
+				if (!ok && s->h == fr->s.h) { ok = 1; match = ncand; }
 			}
+			if (ok && ncand > 1) { if (match == 1) got_old++; else got_new++; }
 			if (!ok && jhi > jlo && fr->s.h == A.blank[p].h) { ok = 1; blank_rule++; }
 			if (ncand > 1) multi_cand++;
 			in_dec = where_is(fr->c, A.dec, A.n_dec) || where_is(fr->r, A.dec, A.n_dec) || jhi > jlo;
@@ -616,14 +669,24 @@ static int analyse_a(void)
 			if (in_dec || in_hand)
 				SIG("a:fetch thr=%c pg=%d site=%s cand=%d got=%s", "BC"[me], fr->pgno,
 				       in_hand ? "event-gap" : "decode", ncand > 3 ? 3 : ncand,
-				       !ok ? "none" : ncand <= 1 ? "only" : (first && first->h == fr->s.h) ? "old" : "new");
+				       !ok ? "none" : match == 0 ? "blank" : ncand <= 1 ? "only" : match == 1 ? "old" : "new");
 			if (!ok) {
 				const struct pgsum *s0 = state_at(p, jlo), *s1 = state_at(p, jhi);
-				REPORT("model:C20:torn-page",
-					"thread %c fetch #%ld of page %d in tick window [%lu,%lu] matches none of A's %d distinct snapshots %ld..%ld (frames %ld..%ld) nor the blank page; "
-					"rows vs snapshot %ld: %s, vs snapshot %ld: %s, vs blank: %s",
-					"BC"[me], i, fr->pgno, fr->c, fr->r, ncand, jlo, jhi, A.snaps[jlo].frame, A.snaps[jhi].frame,
-					jlo, row_diff(&fr->s, s0), jhi, row_diff(&fr->s, s1), row_diff(&fr->s, &A.blank[p]));
+				{
+					/* witness: differing rows and the caption bytes A fed around that time */
+					char cb[400]; int o = 0; long f;
+					for (f = A.snaps[jlo].frame - 6; f <= A.snaps[jhi].frame && o < 380; f++)
+						if (A.capt && f >= 0 && f < A.n_dec && A.capt[f].f)
+							o += snprintf(cb + o, sizeof cb - (size_t)o, "%ld:F%d:%02x%02x ", f, A.capt[f].f, A.capt[f].b[0] & 0x7f, A.capt[f].b[1] & 0x7f);
+					cb[o] = 0;
+					REPORT("model:C20:torn-page",
+						"thread %c fetch #%ld of page %d in tick window [%lu,%lu] matches none of A's %d distinct snapshots %ld..%ld (frames %ld..%ld) nor the blank page; "
+						"rows(15)/head,tail,misc vs snapshot %ld: %s, vs snapshot %ld: %s, vs blank: %s; "
+						"differing rows: fetched %s| snapshot %ld %s| snapshot %ld %s| caption bytes fed by frame (7 bit): %s",
+						"BC"[me], i, fr->pgno, fr->c, fr->r, ncand, jlo, jhi, A.snaps[jlo].frame, A.snaps[jhi].frame,
+						jlo, row_diff(&fr->s, s0), jhi, row_diff(&fr->s, s1), row_diff(&fr->s, &A.blank[p]),
+						rows_text(&fr->s, s0), jlo, rows_text(s0, &fr->s), jhi, rows_text(s1, &fr->s), cb);
+				}
 			}
 		}
 	}
@@ -660,10 +723,12 @@ static int analyse_a(void)
 	COUNT("a_caption_events", A.caption_events);
 	COUNT("a_ttx_page_events", A.ttx_events);
 	COUNT("a_other_events", A.other_events);
+	COUNT("a_trigger_events", A.trigger_events);
 	COUNT("a_fetches", fetch_total);
 	COUNT("a_fetches_overlapping_decode", overlap_fetch);
 	COUNT("a_fetches_returning_inside_event_handler_gap", fetch_in_handler_gap);
 	COUNT("a_fetches_with_several_candidate_snapshots", multi_cand);
+	COUNT("a_fetches_matching_earlier_of_several_snapshots", got_old);
 	COUNT("a_fetches_matching_later_snapshot", got_new);
 	COUNT("a_fetches_matching_blank_rule", blank_rule);
 	COUNT("a_channel_switch_requests", A.n_sw);
@@ -704,6 +769,7 @@ static int run_a(struct vf_rng *r)
 	A.snaps = xcalloc((size_t)A.cap_snaps, sizeof *A.snaps);
 	for (p = 0; p < 8; p++) { A.cap_chg[p] = A.cap_snaps; A.chg[p] = xcalloc((size_t)A.cap_chg[p], sizeof **A.chg); }
 	A.dec = xcalloc((size_t)frames, sizeof *A.dec);
+	A.capt = xcalloc((size_t)frames, sizeof *A.capt);
 	A.cap_hand = frames * 5 + 64;
 	A.hand = xcalloc((size_t)A.cap_hand, sizeof *A.hand);
 	A.cap_fr = frames * 3 + 64;
@@ -716,7 +782,7 @@ static int run_a(struct vf_rng *r)
 	A.vbi = vbi_decoder_new();
 	if (!A.vbi) { vf_fail("harness:alloc", "vbi_decoder_new failed"); return 0; }
 	vbi_event_handler_register(A.vbi, VBI_EVENT_CAPTION | VBI_EVENT_TTX_PAGE | VBI_EVENT_NETWORK | VBI_EVENT_NETWORK_ID
-				   | VBI_EVENT_ASPECT | VBI_EVENT_PROG_INFO, a_handler, NULL);
+				   | VBI_EVENT_ASPECT | VBI_EVENT_PROG_INFO | VBI_EVENT_TRIGGER, a_handler, NULL);
 	/* snapshot 0: the state after a channel switch = the blank pages */
 	A.a_frame_now = -1;
 	a_snapshot(0);
@@ -726,20 +792,21 @@ static int run_a(struct vf_rng *r)
 	memset(g_progress, 0, sizeof g_progress);
 	memset((void *)g_phase, 0, sizeof g_phase);
 	vf_phase("scenario-a");
-	nt = 4;
-	pthread_create(&th[0], NULL, a_decoder_thread, NULL);
-	pthread_create(&th[1], NULL, a_fetch_thread, (void *)0L);
-	pthread_create(&th[2], NULL, a_fetch_thread, (void *)1L);
-	pthread_create(&th[3], NULL, a_switch_thread, NULL);
+	/* --p4 bit 0: no thread C; bit 1: no thread D (thorough tier varies the thread count) */
+	nt = 0;
+	pthread_create(&th[nt++], NULL, a_decoder_thread, NULL);
+	pthread_create(&th[nt++], NULL, a_fetch_thread, (void *)0L);
+	if (vf_param[4] & 1) g_phase[2] = "done"; else pthread_create(&th[nt++], NULL, a_fetch_thread, (void *)1L);
+	if (vf_param[4] & 2) g_phase[3] = "done"; else pthread_create(&th[nt++], NULL, a_switch_thread, NULL);
 	__atomic_store_n(&g_go, 1, __ATOMIC_RELAXED);
-	join_with_watchdog(th, nt, "a");
+	join_with_watchdog(th, nt, 4, "a");
 
 	p = analyse_a();
 	vf_sample("scenario a: %ld frames, %ld snapshots, fetches B=%ld C=%ld, %ld channel switch requests, %ld caption events",
 		  A.n_dec, A.n_snaps, A.n_fr[0], A.n_fr[1], A.n_sw, A.caption_events);
 	vf_phase("vbi_decoder_delete");
 	vbi_decoder_delete(A.vbi);
-	free(A.snaps); free(A.dec); free(A.hand); free(A.fr[0]); free(A.fr[1]); free(A.sw);
+	free(A.snaps); free(A.dec); free(A.capt); free(A.hand); free(A.fr[0]); free(A.fr[1]); free(A.sw);
 	{ int q; for (q = 0; q < 8; q++) free(A.chg[q]); }
 	return p;
 }
@@ -783,6 +850,7 @@ static struct {
 	struct dec_rec *dr; long n_dr;
 	struct tog_rec *tr[2]; long n_tr[2], cap_tr;
 	vbi_sliced out[BLINES + 4];
+	int quirk;                          /* threaded monitor admits stale (removed but still decoded) services */
 } B;
 
 NOTSAN static uint64_t out_hash(const vbi_sliced *s, int n, unsigned *idbits)
@@ -856,7 +924,14 @@ static int b_make_refs(void)
 		vbi_sliced out[BLINES + 4];
 		vbi_raw_decoder_init(&rd);
 		b_sampling(&rd);
-		if (bits && vbi_raw_decoder_add_services(&rd, set_of(bits), 1) != set_of(bits)) { vbi_raw_decoder_destroy(&rd); return 0; }
+		if (bits) {
+			unsigned int got = vbi_raw_decoder_add_services(&rd, set_of(bits), 0);
+			if (got != set_of(bits)) {
+				vf_log("add_services(0x%x) -> 0x%x\n", set_of(bits), got);
+				vbi_raw_decoder_destroy(&rd);
+				return 0;
+			}
+		}
 		for (m = 0; m < NIMG; m++) {
 			unsigned ib;
 			int n;
@@ -864,7 +939,8 @@ static int b_make_refs(void)
 			n = vbi_raw_decode(&rd, B.img[m], out);
 			B.ref_n[m][bits] = n;
 			B.ref_h[m][bits] = out_hash(out, n, &ib);
-			if (ib & ~bits) { vbi_raw_decoder_destroy(&rd); return 0; }
+			if (ib & ~bits) { vf_log("set bits %x image %d: foreign ids %x\n", bits, m, ib); vbi_raw_decoder_destroy(&rd); return 0; }
+			vf_log("ref set bits %x image %d: %d lines ids %x\n", bits, m, n, ib);
 		}
 		for (st = 0; st < 3; st++)
 			B.check_ref[bits][st] = vbi_raw_decoder_check_services(&rd, set_of(bits), st);
@@ -873,32 +949,87 @@ static int b_make_refs(void)
 	return 1;
 }
 
-/* the reference must not depend on history (the raw decoder learns line
- * patterns): toggle randomly in one thread and compare every decode */
-static int b_check_refs_history_free(struct vf_rng *r, int steps)
+/* Named quirk Q-removed-service-still-decoded: vbi3_raw_decoder_remove_services()
+ * walks the job table with an index but never advances its job pointer, so only
+ * the FIRST job can be removed; any other service is cleared from the returned
+ * service set but keeps being decoded until the next add_services() rebuilds
+ * the job table (from the service set, in service-table order, new service
+ * last).  The model below reproduces exactly that; it is consulted only after
+ * the strict reference (decoded set == configured set) has failed. */
+static const int table_rank[NSERV] = { 0, 1, 3, 2 };   /* SERV[] index -> order in _vbi_service_table: TTX, VPS, WSS, CC */
+struct jobs_model { int n; int job[NSERV]; unsigned mask; };
+
+static void jm_rebuild(struct jobs_model *jm)
+{
+	int rank, s;
+	jm->n = 0;
+	for (rank = 0; rank < NSERV; rank++)
+		for (s = 0; s < NSERV; s++)
+			if (table_rank[s] == rank && (jm->mask & (1u << s))) jm->job[jm->n++] = s;
+}
+static void jm_add(struct jobs_model *jm, int s)
+{
+	int had = (jm->mask >> s) & 1;
+	jm_rebuild(jm);                       /* add_services() re-installs the sampling parameters first */
+	if (!had) { jm->job[jm->n++] = s; jm->mask |= 1u << s; }
+}
+static void jm_remove(struct jobs_model *jm, int s)
+{
+	jm->mask &= ~(1u << s);
+	if (jm->n > 0 && jm->job[0] == s) { memmove(&jm->job[0], &jm->job[1], sizeof jm->job[0] * (size_t)(jm->n - 1)); jm->n--; }
+}
+static unsigned jm_decoded(const struct jobs_model *jm)
+{
+	unsigned d = 0; int i;
+	for (i = 0; i < jm->n; i++) d |= 1u << jm->job[i];
+	return d;
+}
+
+/* Sequential phase: toggle randomly in ONE thread and compare every decode with
+ * the strict reference (the raw decoder learns line patterns, so this also
+ * proves that the reference does not depend on history).
+ * Returns 0 = strict reference holds; 1 = it fails but exactly as the named
+ * quirk predicts; 2 = unexplained.  witness describes the first divergence. */
+static int b_sequential_check(struct vf_rng *r, int steps, char *witness, size_t wlen)
 {
 	vbi_raw_decoder rd;
-	unsigned bits = 15;
-	int i, ok = 1;
+	struct jobs_model jm;
+	int i, strict_bad = 0, quirk_bad = 0, o = 0;
+	char hist[300];
 	vbi_raw_decoder_init(&rd);
 	b_sampling(&rd);
-	vbi_raw_decoder_add_services(&rd, set_of(15), 1);
-	for (i = 0; i < steps && ok; i++) {
+	vbi_raw_decoder_add_services(&rd, set_of(15), 0);
+	jm.mask = 15; jm_rebuild(&jm);
+	witness[0] = 0; hist[0] = 0;
+	for (i = 0; i < steps && !quirk_bad; i++) {
 		vbi_sliced out[BLINES + 4];
 		unsigned ib;
+		uint64_t h;
 		int m = (int)vf_below(r, NIMG), n, s = (int)vf_below(r, NSERV);
 		if (vf_chance(r, 1, 2)) {
 			unsigned int ret;
-			if (bits & (1u << s)) { ret = vbi_raw_decoder_remove_services(&rd, SERV[s]); bits &= ~(1u << s); }
-			else { ret = vbi_raw_decoder_add_services(&rd, SERV[s], (int)vf_below(r, 2)); bits |= 1u << s; }
-			if (ret != set_of(bits)) ok = 0;
+			if (jm.mask & (1u << s)) { ret = vbi_raw_decoder_remove_services(&rd, SERV[s]); jm_remove(&jm, s); if (!strict_bad && o < 280) o += snprintf(hist + o, sizeof hist - (size_t)o, "-%x ", SERV[s]); }
+			else { ret = vbi_raw_decoder_add_services(&rd, SERV[s], 0); jm_add(&jm, s); if (!strict_bad && o < 280) o += snprintf(hist + o, sizeof hist - (size_t)o, "+%x ", SERV[s]); }
+			if (ret != set_of(jm.mask)) {
+				snprintf(witness, wlen, "after %sthe call returned service set 0x%x, expected 0x%x", hist, ret, set_of(jm.mask));
+				quirk_bad = 1;
+				break;
+			}
 		}
 		memset(out, 0, sizeof out);
 		n = vbi_raw_decode(&rd, B.img[m], out);
-		if (n != B.ref_n[m][bits] || out_hash(out, n, &ib) != B.ref_h[m][bits]) ok = 0;
+		h = out_hash(out, n, &ib);
+		if (n != B.ref_n[m][jm.mask] || h != B.ref_h[m][jm.mask]) {
+			unsigned d = jm_decoded(&jm);
+			if (!strict_bad)
+				snprintf(witness, wlen, "services all on, then %s(+add -remove): service set is 0x%x but vbi_raw_decode returns %d lines with services 0x%x (reference: %d lines)",
+					 hist, set_of(jm.mask), n, set_of(ib), B.ref_n[m][jm.mask]);
+			strict_bad = 1;
+			if (n != B.ref_n[m][d] || h != B.ref_h[m][d]) quirk_bad = 1;
+		}
 	}
 	vbi_raw_decoder_destroy(&rd);
-	return ok;
+	return quirk_bad ? 2 : strict_bad ? 1 : 0;
 }
 
 static void *b_decode_thread(void *arg)
@@ -919,7 +1050,9 @@ static void *b_decode_thread(void *arg)
 		B.n_dr = k + 1;
 		__atomic_store_n(&g_a_frame, k + 1, __ATOMIC_RELAXED);
 		__atomic_store_n(&g_phase[0], "pace", __ATOMIC_RELAXED);
-		if (vf_chance(r, 1, 4)) sched_yield();
+		/* a capture loop waits for the next frame; without a pause the
+		 * decoder re-takes the mutex before a waiting toggler wakes up */
+		if (vf_chance(r, 2, 3)) usleep(20 + vf_below(r, 300)); else sched_yield();
 	}
 	__atomic_store_n(&g_a_done, 1, __ATOMIC_RELAXED);
 	progress(0, "done");
@@ -956,7 +1089,7 @@ static void *b_toggle_thread(void *arg)
 				state &= ~(1u << s);
 			} else {
 				t->kind = 0;
-				t->strict = (int)vf_below(r, 2);
+				t->strict = 0;   /* the sampled lines are a subset of the Teletext range: only loose matching admits it */
 				progress(1 + me, "vbi_raw_decoder_add_services");
 				t->c = tick();
 				t->ret = vbi_raw_decoder_add_services(&B.rd, SERV[s], t->strict);
@@ -967,7 +1100,7 @@ static void *b_toggle_thread(void *arg)
 		t->own_after = state;
 		B.n_tr[me]++;
 		__atomic_store_n(&g_phase[1 + me], "pace", __ATOMIC_RELAXED);
-		pace(r);
+		if (vf_chance(r, 1, 4)) pace(r); else usleep(100 + vf_below(r, 900));
 	}
 	progress(1 + me, "done");
 	return NULL;
@@ -992,7 +1125,7 @@ static unsigned possible_states(int me, unsigned long c, unsigned long r, long *
 
 static int analyse_b(void)
 {
-	long k, cur[2] = {0, 0}, overlap = 0, multi = 0, toggles = 0, checks = 0, ret_multi = 0;
+	long k, cur[2] = {0, 0}, overlap = 0, multi = 0, toggles = 0, checks = 0, ret_multi = 0, by_quirk = 0;
 	int me, nontrivial = 0;
 	for (k = 0; k < B.n_dr; k++) {
 		struct dec_rec *d = &B.dr[k];
@@ -1006,6 +1139,20 @@ static int analyse_b(void)
 				if (!(mc & (1u << sc))) continue;
 				ncand++;
 				if (d->n == B.ref_n[d->img][sb | sc] && d->h == B.ref_h[d->img][sb | sc]) { ok = 1; match_first = ncand == 1; }
+			}
+		}
+		if (!ok && B.quirk) {
+			/* quirk mode: a removed service may still be decoded (which ones
+			 * depends on the global order of all toggles): any superset of a
+			 * possible configured set */
+			unsigned x;
+			for (sb = 0; sb < 16 && !ok; sb++) {
+				if (!(mb & (1u << sb))) continue;
+				for (sc = 0; sc < 16 && !ok; sc++) {
+					if (!(mc & (1u << sc))) continue;
+					for (x = 0; x < 16 && !ok; x++)
+						if (d->n == B.ref_n[d->img][sb | sc | x] && d->h == B.ref_h[d->img][sb | sc | x]) { ok = 1; by_quirk++; }
+				}
 			}
 		}
 		if ((mb & (mb - 1)) || (mc & (mc - 1))) {
@@ -1074,6 +1221,7 @@ static int analyse_b(void)
 	COUNT("b_toggles", toggles);
 	COUNT("b_toggles_overlapping_other_toggler", ret_multi);
 	COUNT("b_check_services_calls", checks);
+	COUNT("b_decodes_matching_only_with_quirk", by_quirk);
 	if (overlap) nontrivial = 1;
 	return nontrivial;
 }
@@ -1110,10 +1258,21 @@ static int run_b(struct vf_rng *r)
 
 	vf_phase("scenario-b-setup");
 	if (!b_prepare(r)) { b_free(); return 0; }
-	if (!b_check_refs_history_free(r, 400)) {
-		vf_fail("harness:C20:ref-history", "sequential toggling changes decode results: reference is history dependent");
-		b_free();
-		return 0;
+	{
+		char witness[700];
+		int rc = b_sequential_check(r, 400, witness, sizeof witness);
+		B.quirk = 0;
+		if (rc == 2) {
+			vf_fail("model:C20:sequential-decode-mismatch", "single-threaded toggling: %s", witness);
+			b_free();
+			return 0;
+		}
+		if (rc == 1) {
+			/* strict reference refuted, divergence is exactly the named quirk */
+			vf_fail("model:C20:Q-removed-service-still-decoded", "single-threaded: %s; the divergence is exactly 'only the first job can be removed'", witness);
+			B.quirk = 1;
+		}
+		vf_count("b_sequential_steps", 400);
 	}
 	B.decodes = decodes;
 	vf_rng_seed(&B.rng[0], vf_u64(r), 1);
@@ -1125,17 +1284,20 @@ static int run_b(struct vf_rng *r)
 	B.tr[1] = xcalloc((size_t)B.cap_tr, sizeof **B.tr);
 	vbi_raw_decoder_init(&B.rd);
 	b_sampling(&B.rd);
-	if (vbi_raw_decoder_add_services(&B.rd, set_of(15), 1) != set_of(15)) { vf_fail("harness:C20:ref", "cannot add all services"); return 0; }
+	if (vbi_raw_decoder_add_services(&B.rd, set_of(15), 0) != set_of(15)) { vf_fail("harness:C20:ref", "cannot add all services"); return 0; }
 
 	g_a_done = 0; g_a_frame = 0; g_go = 0;
 	memset(g_progress, 0, sizeof g_progress);
 	memset((void *)g_phase, 0, sizeof g_phase);
 	vf_phase("scenario-b");
-	pthread_create(&th[0], NULL, b_decode_thread, NULL);
-	pthread_create(&th[1], NULL, b_toggle_thread, (void *)0L);
-	pthread_create(&th[2], NULL, b_toggle_thread, (void *)1L);
-	__atomic_store_n(&g_go, 1, __ATOMIC_RELAXED);
-	join_with_watchdog(th, 3, "b");
+	{
+		int nt = 0;
+		pthread_create(&th[nt++], NULL, b_decode_thread, NULL);
+		pthread_create(&th[nt++], NULL, b_toggle_thread, (void *)0L);
+		if (vf_param[4] & 1) g_phase[2] = "done"; else pthread_create(&th[nt++], NULL, b_toggle_thread, (void *)1L);
+		__atomic_store_n(&g_go, 1, __ATOMIC_RELAXED);
+		join_with_watchdog(th, nt, 3, "b");
+	}
 
 	nontrivial = analyse_b();
 	vf_sample("scenario b: %ld decodes of %d images x %d lines, toggles/checks B=%ld C=%ld", B.n_dr, NIMG, BLINES, B.n_tr[0], B.n_tr[1]);
